@@ -133,6 +133,9 @@ Proof. unfold parse_attribute. intros H Hs. usteps. fwall. assumption. Qed.
 Lemma sfx_decl_consume_spaces s s' : decl_consume_spaces text s = Ok s' -> sfx s -> sfx s'.
 Proof. unfold decl_consume_spaces. intros H Hs. usteps; sside. Qed.
 
+Lemma sfx_consume_spaces s s' : consume_spaces text s = Ok s' -> sfx s -> sfx s'.
+Proof. unfold consume_spaces. intros H Hs. usteps; sside. Qed.
+
 Lemma sfx_parse_declaration s s' : parse_declaration text s = Ok s' -> sfx s -> sfx s'.
 Proof.
   unfold parse_declaration. intros H Hs. usteps;
@@ -152,7 +155,12 @@ Lemma sfx_parse_comment s c s' c' : parse_comment text C ev s c = Ok (s', c') ->
 Proof. unfold parse_comment. intros H Hs. usteps. fwall. assumption. Qed.
 
 Lemma sfx_parse_pi s c s' c' : parse_pi text C ev s c = Ok (s', c') -> sfx s -> sfx s'.
-Proof. unfold parse_pi. intros H Hs. usteps. fwall. assumption. Qed.
+Proof.
+  unfold parse_pi. intros H Hs. usteps; fwall; [assumption|].
+  match goal with H : consume_spaces _ _ = Ok _ |- _ =>
+    apply sfx_consume_spaces in H; [|solve [sside]] end.
+  fwall. assumption.
+Qed.
 
 Lemma sfx_parse_misc_loop fuel : forall s c s' c',
   parse_misc_loop text C ev fuel s c = Ok (s', c') -> sfx s -> sfx s'.
